@@ -224,6 +224,18 @@ class Engine:
             return z3.Contains(coll.x, e.x)
         if k == "opt":
             return zand(znot(coll.x[0]), self.contains(coll.x[1], e))
+        if k == "obj":
+            c_ = self.reg.lookup_method(coll.t[1], "__contains__")
+            if c_ is not None and c_.defn is not None:
+                saved_spec, saved_bound = self.spec, dict(self.bound)
+                self.spec = True
+                self.bound = dict(self.bound)
+                self.bound.update({list(c_.params)[0]: coll, list(c_.params)[1]: self.typed(e, list(c_.params.values())[1])})
+                try:
+                    from .state import State as _S
+                    return self.truth(self.ev1(self.reg.parse_spec(c_.defn), self.cur_state_for_truth or _S()))
+                finally:
+                    self.spec, self.bound = saved_spec, saved_bound
         raise OutOfSubset(f"'in' on {coll.t}")
 
     # ------------------------------------------------------------------ raising
